@@ -34,6 +34,7 @@ class State:
     pair_counts = {}   # (state,event) -> count   (live conformance coverage)
     framed = []        # (seq, assoc_id, bytes) every byte string handed to DUL._decode_pdu
     dul_events = []    # (seq, assoc_id, event) every event put on a DUL event queue by _read_pdu_data
+    dul_event_times = {}   # seq -> time.time() of that record
     decoded = []       # (seq, assoc_id, pdu_object, event, bytes) every successful DUL._decode_pdu
 
 
@@ -54,6 +55,7 @@ def reset():
         State.pair_counts = {}
         State.framed = []
         State.dul_events = []
+        State.dul_event_times = {}
         State.decoded = []
 
 
@@ -229,7 +231,9 @@ def install():
             new = after[len(before):] if after[:len(before)] == before else after
             with _LOCK:
                 for e in new:
-                    State.dul_events.append((_next(), id(self.assoc), e))
+                    sq_ = _next()
+                    State.dul_event_times[sq_] = time.time()
+                    State.dul_events.append((sq_, id(self.assoc), e))
 
     _dul.DULServiceProvider._read_pdu_data = _read_pdu_data
 
